@@ -194,3 +194,37 @@ def run_calls(case):
 
 
 HANDLERS['calls'] = run_calls
+
+
+def run_exec(case):
+    """construct an abstract opcode object and execute it on a built state (no fetch/decode)"""
+    import implrun
+    import importlib
+    import re
+    arm = build(case['state'])
+    mod = importlib.import_module('armulator.armv6.opcodes.abstract_opcodes.' + case['module'])
+    cls = getattr(mod, case['cls'])
+    args = []
+    for a in case['fields']:
+        if isinstance(a, list) and a and a[0] == 'enum':
+            em = importlib.import_module('armulator.armv6.' + a[1])
+            args.append(getattr(em, a[2])(a[3]))
+        else:
+            args.append(a)
+    exn = None
+    try:
+        with contextlib.redirect_stdout(io.StringIO()):
+            op = cls(*args)
+            op.execute(arm)
+    except Exception as e:  # noqa
+        exn = e
+    try:
+        tail = dump(arm)
+    except Exception:
+        return [9, 9]
+    if exn is None:
+        return [0] + tail
+    return implrun.exn_enc(exn) + tail
+
+
+HANDLERS['exec'] = run_exec
